@@ -23,6 +23,10 @@ struct Ctx {
     tid: usize,
     multi: bool,
     fuel: u64,
+    replace_cap: u64,
+    replace_ticks: u64,
+    live0: isize,
+    mem_exceeded: bool,
     ticks: u64,
     sites: Vec<(&'static str, u64)>,
     diag: Vec<u8>,
@@ -38,6 +42,33 @@ thread_local! {
 }
 
 struct FuelExhausted(&'static str);
+
+/// a job whose live heap grows beyond this between two ticks is stopped at that tick (unbounded growth)
+pub const MEM_CAP_BYTES: isize = 64 << 20;
+
+// last tick site per caller thread, readable by the simulator thread when the wall-clock backstop fires
+static LAST_SITE_PTR: [AtomicUsize; 8] = [const { AtomicUsize::new(0) }; 8];
+static LAST_SITE_LEN: [AtomicUsize; 8] = [const { AtomicUsize::new(0) }; 8];
+fn publish_site(tid: usize, site: &'static str) {
+    if tid < 8 {
+        LAST_SITE_LEN[tid].store(0, Ordering::Relaxed);
+        LAST_SITE_PTR[tid].store(site.as_ptr() as usize, Ordering::Relaxed);
+        LAST_SITE_LEN[tid].store(site.len(), Ordering::Release);
+    }
+}
+pub fn last_site_of(tid: usize) -> String {
+    if tid >= 8 {
+        return "?".into();
+    }
+    let len = LAST_SITE_LEN[tid].load(Ordering::Acquire);
+    let ptr = LAST_SITE_PTR[tid].load(Ordering::Relaxed);
+    if len == 0 || ptr == 0 {
+        return "none".into();
+    }
+    // sites are &'static str literals of the code under test
+    let b = unsafe { std::slice::from_raw_parts(ptr as *const u8, len) };
+    String::from_utf8_lossy(b).to_string()
+}
 
 /// scheduling point used by the simulated reader / writer and by `tick`
 pub fn sched_point() {
@@ -61,11 +92,18 @@ fn tick_cb(site: &'static str) {
         if let Some(ctx) = g.as_mut() {
             ctx.ticks += 1;
             ctx.last_site = site;
+            publish_site(ctx.tid, site);
+            if site == "cpp.replace_all" {
+                ctx.replace_ticks += 1;
+            }
             match ctx.sites.iter_mut().find(|s| std::ptr::eq(s.0, site)) {
                 Some(s) => s.1 += 1,
                 None => ctx.sites.push((site, 1)),
             }
-            ctx.ticks > ctx.fuel
+            if simenv::live_bytes() - ctx.live0 > MEM_CAP_BYTES {
+                ctx.mem_exceeded = true;
+            }
+            ctx.ticks > ctx.fuel || ctx.replace_ticks > ctx.replace_cap || ctx.mem_exceeded
         } else {
             false
         }
@@ -346,12 +384,17 @@ fn run_job(job: &JobSpec, env: &WorkerEnv, sched: &Arc<Sched>, tid: usize, multi
     LOGBUF.with(|b| b.borrow_mut().clear());
     DECLS.with(|d| *d.borrow_mut() = None);
     LAST_PANIC.with(|p| *p.borrow_mut() = None);
+    publish_site(tid, "start");
     CTX.with(|c| {
         *c.borrow_mut() = Some(Ctx {
             sched: sched.clone(),
             tid,
             multi,
             fuel,
+            replace_cap: job.replace_cap(),
+            replace_ticks: 0,
+            live0: simenv::live_bytes(),
+            mem_exceeded: false,
             ticks: 0,
             sites: Vec::new(),
             diag: Vec::new(),
